@@ -167,6 +167,7 @@ func vSetupDeviceSpec(nopanic bool) {
 	untagged := token.Sign1
 	ok, verr := untagged.Verify(w.dev.Pub, nil, nil)
 	verif.Assert(verr == nil && ok, "served => the token is signed with the key of the voucher's device certificate")
+	verif.Assert(vwSpecSigned(kind, w.dev.Pub, algs[algIdx], vwMust(cbor.Marshal(eat)), token.Signature), "served => the token's signature is the device key's over its protected header and payload (reference predicate)")
 	verif.Assert(len(nonceClaim) == 16 && verif.BytesEq(nonceClaim, proveNonce[:]), "served => the token carries the ProveDevice nonce the owner issued in this session")
 	verif.Assert(len(ueid) == 17 && ueid[0] == 1 && verif.BytesEq(ueid[1:], w.guid[:]), "served => the UEID names the voucher's GUID")
 	verif.Assert(fdoShape == 1, "served => the FDO claim is one byte string")
